@@ -142,7 +142,10 @@ def gen_plan(rng, index, tier):
         elif op == "rotate":
             kw["k"] = rng.choice([1, 2, 3, 5])
         elif op == "std":
-            kw["which"] = rng.choice(["power", "flux", "mgFlux", "keff", "notes", "buLimit", "pdens", "detailedNDens", "percentBuByPin", "nozzleType", "crElevation", "xsType", "allheights", "envGroup"])
+            kw["which"] = rng.choice(["power", "flux", "mgFlux", "keff", "notes", "buLimit", "pdens", "detailedNDens", "percentBuByPin", "nozzleType", "crElevation", "xsType", "allheights", "envGroup", "onesite"])
+            if kw["which"] == "onesite" and cfg.get("reactor") == "gen" and cfg["blueprint"].get("geom", "hex") != "cartesian":
+                cfg["blueprint"]["pins"] = True
+                cfg["blueprint"].setdefault("pinrings", 2)
             if kw["which"] in ("nozzleType", "crElevation") and cfg.get("reactor") == "gen":
                 cfg["blueprint"]["nozzle"] = True
         steps.append(c06._mk_step(0, a["name"], pt, op, **kw))
@@ -361,6 +364,19 @@ def op_std(d, st, actor):
             if fb:
                 fb[-1].setHeight(fb[-1].getHeight() * (1.0 + 0.01 * (kk + 1)))
         d.mass_dirty = True
+    elif w == "onesite":
+        # a pin component that sits on a single site of its block's lattice (still a multi-site locator)
+        from armi.reactor import grids as _grids
+
+        for bb in blks:
+            if bb.spatialGrid is None:
+                continue
+            pin = next((c for c in bb if isinstance(c.spatialLocator, _grids.MultiIndexLocation)), None)
+            if pin is not None:
+                single = _grids.MultiIndexLocation(grid=bb.spatialGrid)
+                single.append(bb.spatialGrid[0, 0, 0])
+                pin.spatialLocator = single
+                break
     elif w == "envGroup":
         # burnup/environment groups beyond the 26th are lower-case letters
         for j, bb in enumerate(blks):
